@@ -132,6 +132,14 @@ def scriptOf? (j : Json) : Option (List (Raised × Nat)) := do
     | [x, dur] => do let x ← raisedOf? x; let dur ← jNat? dur; some (x, dur)
     | _ => none)
 
+/-- one element per iteration of `_timer`'s loop: `[x, dur, idleUntil]` -/
+def iterScriptOf? (j : Json) : Option (List (Raised × Nat × Int)) := do
+  let xs ← jArr? j
+  xs.mapM (fun e => do
+    match ← jArr? e with
+    | [x, dur, iu] => do let x ← raisedOf? x; let dur ← jNat? dur; let iu ← jInt? iu; some (x, dur, iu)
+    | _ => none)
+
 def handle : DrvHandler := fun op args =>
   match op, args with
   | "C11.classify", [env, lim, r, now, dur, x] => do
@@ -167,20 +175,34 @@ def handle : DrvHandler := fun op args =>
       let env ← envOf? env; let lim ← limitsOf? lim; let now ← jInt? now
       let script ← scriptOf? script
       some (ok (.arr ((loopRun env lim now (fromScratch now) script).map attJ).toArray))
-  | "C11.timer", [env, lim, interval, sharp, idleUntil, now, script] => do
-      -- the whole life of one `_timer` task (interval > 0) from scratch at `now`; the idle wait ends at `idleUntil`
-      let env ← envOf? env; let lim ← limitsOf? lim; let now ← jInt? now; let iu ← jInt? idleUntil
+  | "C11.timer", [env, lim, interval, sharp, t0, initialDelay, script] => do
+      -- the whole life of one `_timer` task (interval > 0) spawned at `t0` with `initial_delay`; one script
+      -- element per iteration: [x, dur, idleUntil as that iteration's idle wait found it]
+      let env ← envOf? env; let lim ← limitsOf? lim; let t0 ← jInt? t0; let d ← jNat? initialDelay
       let interval ← jNat? interval; let sharp ← jBool? sharp
-      let script ← scriptOf? script
+      let script ← iterScriptOf? script
       if interval == 0 then some (err "zero-interval") else
-      some (ok (.arr ((timerRun env lim interval sharp iu now (fromScratch now) script).map evJ).toArray))
+      some (ok (.arr ((timerRun env lim interval sharp (spawnedAt t0 d) (fromScratch (spawnedAt t0 d)) script).map evJ).toArray))
+  | "C11.daemon", [env, lim, t0, initialDelay, script] => do
+      -- `_daemon` spawned at `t0` with `initial_delay`
+      let env ← envOf? env; let lim ← limitsOf? lim; let t0 ← jInt? t0; let d ← jNat? initialDelay
+      let script ← scriptOf? script
+      some (ok (.arr ((daemonRun env lim t0 d script).map attJ).toArray))
+  | "C11.daemonRespawn", [env, lim, tasks] => do
+      -- a daemon across re-spawns: tasks = [[spawn time, script], …]
+      let env ← envOf? env; let lim ← limitsOf? lim
+      let tasks ← (← jArr? tasks).mapM (fun t => do
+        match ← jArr? t with
+        | [t0, sc] => do let t0 ← jInt? t0; let sc ← scriptOf? sc; some (t0, sc)
+        | _ => none)
+      some (ok (.arr ((daemonRespawnRun env lim tasks).map attJ).toArray))
   | "C11.respawn", [env, lim, interval, sharp, tasks] => do
       -- a timer across re-spawns: tasks = [[spawn time, script], …]
       let env ← envOf? env; let lim ← limitsOf? lim
       let interval ← jNat? interval; let sharp ← jBool? sharp
       let tasks ← (← jArr? tasks).mapM (fun t => do
         match ← jArr? t with
-        | [t0, sc] => do let t0 ← jInt? t0; let sc ← scriptOf? sc; some (t0, sc)
+        | [t0, sc] => do let t0 ← jInt? t0; let sc ← iterScriptOf? sc; some (t0, sc)
         | _ => none)
       if interval == 0 then some (err "zero-interval") else
       some (ok (.arr ((respawnRun env lim interval sharp tasks).map evJ).toArray))
@@ -189,6 +211,16 @@ def handle : DrvHandler := fun op args =>
       let subs ← (← jArr? subs).mapM recOf?
       let now ← jInt? now
       some (ok (raisedJ (childrenRaised subs now)))
+  | "C11.stepStored", [env, lim, r, startedNaive, delayedNaive, now, dur, x] => do
+      -- the gate + one execution on a record re-read from the storage with the given spelling of its timestamps
+      let env ← envOf? env; let lim ← limitsOf? lim; let r ← recOf? r
+      let sn ← jBool? startedNaive; let dn ← jBool? delayedNaive
+      let now ← jInt? now; let dur ← jNat? dur; let x ← raisedOf? x
+      match stepStored env lim ⟨sn, dn⟩ r now x dur with
+      | .raised => some (ok (Json.mkObj [("awake", .str "raised")]))
+      | .idle d => some (ok (Json.mkObj [("awake", .bool false), ("done", .bool d)]))
+      | .att a => some (ok (Json.mkObj [("awake", .bool true), ("out", outJ a.out), ("end", int a.endTime),
+                                        ("rec", recJ a.recAfter)]))
   | "C11.roundtrip", [r, now] => do
       let r ← recOf? r; let now ← jInt? now
       some (ok (recJ (fromStorage (toStorage r) now)))
